@@ -85,6 +85,14 @@ def gen_cases(rng, tier):
                 'x': ['q', _amount(rng), rng.choice(us)],
                 'k': rng.choice([n for n in NUMS if num_value(n) != 0
                                  and n[0] != 'stddec'])}})
+    # augmented assignment: the same results as + and -, and the left operand's object is
+    # never mutated (seeded C03-h)
+    for c in types:
+        us = unit_of[c]
+        for _ in range(2 if tier == 'quick' else 12):
+            cases.append({'world': pre, 'dm': rng.choice(W.MODES), 'op': {
+                'o': rng.choice(['iadd', 'isub']), 'x': ['q', _amount(rng), rng.choice(us)],
+                'y': ['q', _amount(rng), rng.choice(us)]}})
     # quantity.sum with a start value: a quantity (added first), a plain number (TypeError,
     # zero included: seeded C03-f), another type's quantity
     zeros = [['int', '0/1'], ['float', (0.0).hex()], ['dec', '0/1'], ['frac', '0/1'], ['bool', '0']]
@@ -136,6 +144,11 @@ def oracle(case, r):
     o = op['o']
     res = r['res']
     dm = case['dm']
+    if o in ('iadd', 'isub'):
+        if r.get('unchanged') is False:
+            return (f"{o}: `t = x; t {'+' if o == 'iadd' else '-'}= y` changed the object x refers to "
+                    f"(quantities are values)")
+        o = 'add' if o == 'iadd' else 'sub'
     if o in OPS:
         x, y = op['x'], op['y']
         if x[0] == 'n' or y[0] == 'n':
